@@ -3,13 +3,14 @@ clauses).  Case generator, executor and history oracles."""
 
 from fractions import Fraction
 
-from dst.rng import Rng
+from dst.rng import Rng, derive
 from dst import harness
 from dst.harness import tval
 from dst.rec import REC
 
 PROFILE = 'kernel'
 DYADIC = [1, 8]
+UNDECLARED = 'zz_undeclared'
 
 
 # ---------------------------------------------------------------------------
@@ -137,6 +138,10 @@ def gen_case(seed):
     init = {}
     if r.chance(40):
         init = {'acc': {v: r.rint(0, 1000) for v in avars if r.chance(60)}}
+    if init.get('acc') and Rng(derive(seed, 'undeclared')).chance(25):
+        # a key no process declares, listed first: the engine ignores it (own
+        # stream: the cases of earlier seeds keep their shape)
+        init = {'acc': dict({UNDECLARED: 5}, **init['acc'])}
     noemit = []
     if swarm['emitflags']:
         noemit = [v for v in avars if r.chance(40)]
@@ -390,6 +395,7 @@ def check(case, run, stats=None):
     st = {}       # party uid -> dict
     ops = {}      # op index -> OPSTART event
     acc = dict((case.get('init') or {}).get('acc') or {})
+    acc.pop(UNDECLARED, None)
     all_vars = set()
     for s in case['procs']:
         all_vars.update(s.get('vars', []))
